@@ -396,26 +396,34 @@ theorem block_head (path : List Node) (b e : Nat) (hbe : b < e) (f : Node) (hf :
 
 /-! ## plugin-specific relations -/
 
+/-- a merged node is a NEW word: no A/B units, no word structure, no synonym groups, no dictionary-form
+reference, no connection ids (`..Default::default()`, `dictionary_form_word_id: -1`,
+`Node::new(.., u16::MAX, u16::MAX, i16::MAX, ..)`) -/
+def NewWord (m : Node) : Prop :=
+  m.aSplit = [] ∧ m.bSplit = [] ∧ m.wStruct = [] ∧ m.syn = [] ∧ m.dfw = -1 ∧
+    m.left = 65535 ∧ m.right = 65535 ∧ m.cost = 32767
+
 /-- katakana joining: configured OOV part of speech; normalised and dictionary form = surface; at
-least two tokens are joined -/
+least two tokens are joined; the merged node is a new word -/
 def RK (cfg : KCfg) (blk : List Node) (m : Node) : Prop :=
-  m.pos = cfg.oovPos ∧ m.norm = m.surface ∧ m.dform = m.surface ∧ 2 ≤ blk.length
+  m.pos = cfg.oovPos ∧ m.norm = m.surface ∧ m.dform = m.surface ∧ 2 ≤ blk.length ∧ NewWord m
 
 /-- numeral joining: numeral part of speech, which is the part of speech of the first joined token;
-the merged node has no word id; without `enableNormalize` at least two tokens are joined -/
+the merged node has no word id; without `enableNormalize` at least two tokens are joined; the merged
+node is a new word -/
 def RN (cfg : NCfg) (blk : List Node) (m : Node) : Prop :=
   m.pos = cfg.numPos ∧ (∃ f, blk.head? = some f ∧ f.pos = cfg.numPos) ∧ m.wid = WID_INVALID ∧
-    (cfg.enableNormalize = false → 2 ≤ blk.length)
+    (cfg.enableNormalize = false → 2 ≤ blk.length) ∧ NewWord m
 
 theorem RK_compositional (cfg : KCfg) : Compositional (RK cfg) := by
   intro p blk m hc _ h
   have := hc.length_le
-  exact ⟨h.1, h.2.1, h.2.2.1, by have := h.2.2.2; omega⟩
+  exact ⟨h.1, h.2.1, h.2.2.1, by have := h.2.2.2.1; omega, h.2.2.2.2⟩
 
 theorem RN_compositional (cfg : NCfg) : Compositional (RN cfg) := by
   intro p blk m hc _ hr
   have hlen := hc.length_le
-  refine ⟨hr.1, ?_, hr.2.2.1, fun hn => by have := hr.2.2.2 hn; omega⟩
+  refine ⟨hr.1, ?_, hr.2.2.1, fun hn => by have := hr.2.2.2.1 hn; omega, hr.2.2.2.2⟩
   obtain ⟨f, hf, hpos⟩ := hr.2.1
   cases hc with
   | nil => simp at hf
@@ -441,7 +449,7 @@ theorem concatOovNodes_coarsens (cfg : KCfg) {path : List Node} {b e : Nat} {q :
     (h : concatOovNodes path b e cfg.oovPos = .ok q) (h2 : 1 < e - b) : Coarsens (RK cfg) path q := by
   obtain ⟨f, l, hbe, he, hf, hl, rfl⟩ := concatOovNodes_ok h
   exact coarsens_replace_block path b e hbe he _ (spans_mergedOovNode path b e hbe f l hf hl _)
-    ⟨rfl, rfl, rfl, by rw [block_length path b e he]; omega⟩
+    ⟨rfl, rfl, rfl, by rw [block_length path b e he]; omega, rfl, rfl, rfl, rfl, rfl, rfl, rfl, rfl⟩
 
 theorem concatNodes_coarsens (cfg : NCfg) {path : List Node} {b e : Nat} {nf : Option (List Char)}
     {q : List Node} (h : concatNodes path b e nf = .ok q)
@@ -450,7 +458,8 @@ theorem concatNodes_coarsens (cfg : NCfg) {path : List Node} {b e : Nat} {nf : O
   obtain ⟨f, l, hbe, he, hf, hl, rfl⟩ := concatNodes_ok h
   exact coarsens_replace_block path b e hbe he _ (spans_mergedNode path b e hbe f l hf hl _)
     ⟨hpos f hf, ⟨f, block_head path b e hbe f hf, hpos f hf⟩, rfl,
-      fun hn => by rw [block_length path b e he]; have := h2 hn; omega⟩
+      fun hn => by rw [block_length path b e he]; have := h2 hn; omega,
+      rfl, rfl, rfl, rfl, rfl, rfl, rfl, rfl⟩
 
 /-! ## the katakana loop -/
 
@@ -557,7 +566,7 @@ def prescribed : List Plugin → List Nat
   | .numeric cfg :: rest => cfg.numPos :: prescribed rest
   | .katakana cfg :: rest => cfg.oovPos :: prescribed rest
 
-def RS (poses : List Nat) (_blk : List Node) (m : Node) : Prop := m.pos ∈ poses
+def RS (poses : List Nat) (_blk : List Node) (m : Node) : Prop := m.pos ∈ poses ∧ NewWord m
 
 theorem RS_compositional (poses : List Nat) : Compositional (RS poses) := fun _ _ _ _ _ h => h
 
@@ -567,10 +576,10 @@ theorem applyPlugin_coarsens (v : NVariant) (cat : List Nat) (P : List Char → 
   cases pl with
   | numeric cfg =>
     have := nloop_coarsens v cfg cat P _ _ _ h
-    exact this.mono (fun blk m hr => by simp [RS, prescribed, hr.1])
+    exact this.mono (fun blk m hr => ⟨by simp [prescribed, hr.1], hr.2.2.2.2⟩)
   | katakana cfg =>
     have := kloop_coarsens cfg cat _ _ _ _ h
-    exact this.mono (fun blk m hr => by simp [RS, prescribed, hr.1])
+    exact this.mono (fun blk m hr => ⟨by simp [prescribed, hr.1], hr.2.2.2.2⟩)
 
 theorem prescribed_tail_subset (pl : Plugin) (rest : List Plugin) :
     ∀ x ∈ prescribed rest, x ∈ prescribed (pl :: rest) := by
@@ -590,7 +599,7 @@ theorem rewriteAll_coarsens (v : NVariant) (cat : List Nat) (P : List Char → P
     · rename_i p' hp
       have h1 := applyPlugin_coarsens v cat P pl rest hp
       have h2 : Coarsens (RS (prescribed (pl :: rest))) p' q :=
-        (ih _ _ h).mono (fun blk m hr => prescribed_tail_subset pl rest _ hr)
+        (ih _ _ h).mono (fun blk m hr => ⟨prescribed_tail_subset pl rest _ hr.1, hr.2⟩)
       exact h2.trans (RS_compositional _) h1
     all_goals cases h
 
